@@ -825,7 +825,7 @@ def evolve(rng, table):
 def explore(ctx):
     replay_witnesses(ctx)
     check_tables(ctx, list(REPAIRED.values()), "corpus: witnesses of repaired defects (must pass)")
-    check_histories(ctx, ctx.budget(120, 800))
+    check_histories(ctx, ctx.budget(120, 500))
     sd = systematic_decorators()
     sf = systematic_forms()
     if ctx.quick:
@@ -835,8 +835,8 @@ def explore(ctx):
         ctx.exhaustive = True
     check_tables(ctx, sd, "systematic decorator pairs")
     check_tables(ctx, sf, "systematic field forms")
-    check_tables(ctx, [rand_diamond(ctx.rng) for _ in range(ctx.budget(250, 2500))], "random diamonds")
-    n = ctx.budget(1800, 12000)
+    check_tables(ctx, [rand_diamond(ctx.rng) for _ in range(ctx.budget(250, 1500))], "random diamonds")
+    n = ctx.budget(1800, 8000)
     maxn = 4 if ctx.quick else 5
     batch = []
     for k in range(n):
